@@ -11,7 +11,7 @@
 From Coq Require Import List String ZArith.
 Import ListNotations.
 From Anthem Require Import Syntax.Fol Syntax.Asp Sem.Domain Sem.Sat Model.Problem Model.ProblemPrint
-  Model.Transition Proofs.GammaOk Gen.Preamble Proofs.PreambleOk Proofs.StrongOk Proofs.ChainOk Proofs.ChainRename.
+  Model.Transition Proofs.GammaOk Gen.Preamble Proofs.PreambleOk Proofs.StrongOk Proofs.ChainOk Proofs.ChainRename Model.ChainClass Proofs.ChainMonotone.
 Open Scope string_scope.
 
 (* every axiom of the preamble holds in the standard structure: all of Z, all strings *)
@@ -107,6 +107,31 @@ Theorem C12_transition :
 Proof. exact transition_axioms_true. Qed.
 Print Assumptions C12_transition.
 
+(* The exact boundary of the class of finding F8c (Model/ChainClass.v, Proofs/ChainMonotone.v).
+   printed_symbol p s = renamed_symbol p s (the name printed for the constant s of p);
+   rename_monotoneb p (executable, extracted into the oracle sem_chain_orig) := for all constants
+   s1, s2 of p:  s1 < s2  ->  printed s1 < printed s2  (byte order; strict, hence injective);
+   rename_injective p := no two constants of p are printed under one name.
+   Inside the decidable premise every emitted chain axiom is true for the ORIGINAL constants ... *)
+Theorem C12_chain_true_monotone :
+  forall p : problem, rename_monotoneb p = true -> chain_true_for_originals p.
+Proof. exact chain_true_monotone. Qed.
+Print Assumptions C12_chain_true_monotone.
+
+(* ... and the premise is exactly the boundary: the chain is sound for the original constants
+   (all axioms true, no merge) IFF the renaming is strictly monotone on the constants of p *)
+Theorem C12_chain_sound_iff_monotone :
+  forall p : problem, rename_monotoneb p = true <-> chain_true_for_originals p /\ rename_injective p.
+Proof. exact chain_sound_iff_monotone. Qed.
+Print Assumptions C12_chain_sound_iff_monotone.
+
+(* the constants of the problem that is printed are exactly the printed names of the constants of p *)
+Theorem C12_renamed_problem_symbols :
+  forall (p : problem) (x : string),
+  In x (problem_symbols (rename_conflicting_symbols p)) <-> exists s, In s (problem_symbols p) /\ x = printed_symbol p s.
+Proof. exact renamed_problem_symbols. Qed.
+Print Assumptions C12_renamed_problem_symbols.
+
 (* ---------- non-vacuity ---------- *)
 Definition ex_pb : problem :=
   mkproblem "ex" [mkpf "f" PAxiom (FAtomic (AAtom "p" [GSym (SSym "b"); GSym (SSym "a"); GSym (SSym "aB")]))].
@@ -140,3 +165,22 @@ Example C12_ex_transition_needs_sub :
   let T : pint := fun p a => False in
   forall FI e, ~ csat FI (merge H T) e (transition (mkpred "q" 0)).
 Proof. cbv zeta. intros FI e Hc. vm_compute in Hc. apply Hc. reflexivity. Qed.
+(* C12_chain_true_monotone is not vacuous and covers renamed constants: pb_ab, the problem anthem
+   builds for `a. q :- a, a < b.` (demo input of the seeded change C12_r4), has the clash a / a/0, is
+   inside the premise, and its chain is a__s < b *)
+Example C12_ex_monotone :
+  rename_monotoneb pb_ab = true /\ renamed_symbols pb_ab = ["a"] /\
+  windows2 (sort_strings (problem_symbols (rename_conflicting_symbols pb_ab))) = [("a__s", "b")] /\
+  chain_true_for_originals pb_ab.
+Proof.
+  destruct pb_ab_monotone as [H1 [H2 H3]]. repeat split; try assumption. exact (C12_chain_true_monotone pb_ab H1).
+Qed.
+(* converse witnesses: the recorded input of F8c and the merge (constants a and a__s next to the
+   predicate a/0) are outside the premise *)
+Example C12_ex_not_monotone :
+  rename_monotoneb pb_f8c = false /\ rename_monotoneb pb_merge = false /\
+  printed_symbol pb_merge "a" = printed_symbol pb_merge "a__s" /\ ~ rename_injective pb_merge.
+Proof.
+  split; [exact f8c_not_monotone|]. destruct merge_not_monotone as [H1 [H2 H3]]. repeat split; try assumption.
+  intros H. specialize (H "a" "a__s" ltac:(vm_compute; auto) ltac:(vm_compute; auto) H2). discriminate.
+Qed.
